@@ -651,6 +651,17 @@ pub fn gen_prio3_inst(rng: &mut Rng, small: bool, allow_mt: bool) -> Inst {
             proofs = 255;
         }
     }
+    // keep extreme-but-valid corners affordable (one report of n = 254 x 255 proofs costs ~45 s):
+    // many aggregators OR many proofs, never both, and short vectors with them
+    if proofs == 255 {
+        inst.n = inst.n.min(3);
+    }
+    if inst.n >= 64 && proofs > 2 {
+        proofs = 2;
+    }
+    if (proofs == 255 || inst.n >= 64) && inst.chunk > 16 {
+        inst.chunk = 1 + inst.chunk % 16;
+    }
     inst.proofs = proofs;
     if proofs > 1 {
         inst.named = false;
